@@ -114,7 +114,11 @@ func posModes(c *posCase, src []byte) []posObs {
 		_, _, err := bcl.Interpret(src, bcl.OptLogger(&lg), bcl.OptOutput(io.Discard))
 		return lg.String(), err
 	})
-	for _, m := range []int{7, 4096} {
+	sizes := []int{7, 4096}
+	if len(src) < 200 {
+		sizes = []int{1, 2, 3, 5, 7, 4096} // short sources: every small read size, so that boundaries fall inside multi-byte characters too
+	}
+	for _, m := range sizes {
 		m := m
 		guard(fmt.Sprintf("InterpretFile(reads of %d)", m), func() (string, error) {
 			var lg bytes.Buffer
